@@ -757,7 +757,7 @@ func (vc *VC) havocTargets(st *State, ts []locTarget) {
 				keyed = append(keyed, t)
 			}
 		}
-		if whole && freshOnly && strings.HasPrefix(srt, "(Array ") && (strings.HasPrefix(n, "H!") || strings.HasPrefix(n, "A!")) {
+		if whole && freshOnly && strings.HasPrefix(srt, "(Array ") && (strings.HasPrefix(n, "H!") || strings.HasPrefix(n, "A!") || strings.HasPrefix(n, "Z!")) {
 			// only cells of objects allocated from now on (and explicitly keyed cells) may change
 			old := vc.heapTerm(st, n, srt)
 			f := vc.freshConst("hv", srt)
